@@ -1,0 +1,28 @@
+//go:build verif
+
+// Package verifhook provides observation/yield points for external runtime
+// monitors. It is only active when built with the `verif` build tag.
+package verifhook
+
+import "sync/atomic"
+
+var fn atomic.Pointer[func(string)]
+
+// Enabled reports whether hooks are compiled in.
+const Enabled = true
+
+// Set installs f as the hook function (nil uninstalls it).
+func Set(f func(name string)) {
+	if f == nil {
+		fn.Store(nil)
+		return
+	}
+	fn.Store(&f)
+}
+
+// Point is called at instrumented program points.
+func Point(name string) {
+	if f := fn.Load(); f != nil {
+		(*f)(name)
+	}
+}
